@@ -132,6 +132,15 @@ CHECKS["C02"] = dict(
     note=NOTE_COMMON + "Square roots of polynomials that are perfect squares modulo the tokens' identities c^2+s^2=1 are simplified exactly (sympy Groebner reduction; sound). "
          "Two known findings (arcs / round shapes under non-similarity transforms). Outside: Arc.get_start_t / t_at_point / point_at_angle quadrant logic.")
 
+CHECKS["C06"] = dict(
+    text="Real constructors (positional, keyword, attribute dict), _validate_rect, segments, d, Path(shape), ==, bbox, length, reify with all numbers symbolic: the rect "
+         "corner-radius decision table (rx/ry omitted, zero, number, over-large, percentage: 25 cells x 3 routes) against the SVG 2 auto/clamp rules; sharp and rounded "
+         "rect, circle, ellipse, line, polyline, polygon decompositions against the SVG 2 chapter 10 paths (start, direction, order, arc centres, quarter sweeps, "
+         "conjugate radii, ellipse equation at a free parameter); shape = Path(shape) = Path(shape.d()), equal boxes and lengths for straight shapes, also under a "
+         "symbolic matrix; rounded rects under axis-aligned scales incl. reified attributes; degenerate shapes give no segments.",
+    ref="DESIGN.md 4/C06",
+    note=NOTE_COMMON + "Outside: round shapes under non-similarity transforms (C02 finding), Path(shape.d()) and bbox/length for curved shapes (C05/C08/C15), negative radii.")
+
 NOT_APPLICABLE = {
 }
 
